@@ -299,7 +299,9 @@ class _FilesystemDataSource(DataSource):
                     # Filter down to files that begin with file_prefix
                     if entry.name.startswith(file_prefix):
                         entry_name = unquote(entry.name)
-                        if entry_name.endswith(".link"):
+                        # (only files carry the .link suffix; a directory - e.g. a function whose
+                        # version string ends in ".link" - is listed under its own name)
+                        if entry_name.endswith(".link") and not entry.is_dir():
                             entry_name = entry_name[
                                 0:-5
                             ]  # strip .link off end of string
